@@ -75,6 +75,15 @@ class PathCtx:
         self.packcache = {}
         self.nbranches = 0
         self.notes = []
+        # exact bit-vector mirror of the path condition (used when div/mod terms are present)
+        from .bvsolve import BVTranslator
+
+        self.bvtr = BVTranslator()
+        self.bv_solver = z3.SolverFor("QF_BV")
+        self.bv_solver.set("timeout", timeout_ms)
+        self.bv_ok = True
+        self.bv_nside = 0
+        self.divmod_seen = False
 
     # -- naming
     def fresh_name(self, base):
@@ -87,6 +96,7 @@ class PathCtx:
         v = z3.Int(name)
         self.leaves[name] = v
         self.leaf_order.append(name)
+        self.bvtr.set_bounds(name, lo, hi)
         if lo is not None:
             self.add(v >= lo)
         if hi is not None:
@@ -105,8 +115,54 @@ class PathCtx:
     def add(self, z):
         self.pc.append(z)
         self.solver.add(z)
+        if self.bv_ok:
+            from .bvsolve import NotApplicable, has_divmod
+
+            try:
+                t = self.bvtr.tr_bool(z)
+                self._bv_flush_side()
+                self.bv_solver.add(t)
+                if not self.divmod_seen and has_divmod(z):
+                    self.divmod_seen = True
+            except NotApplicable:
+                self.bv_ok = False
+
+    def _bv_flush_side(self):
+        side = self.bvtr.side
+        while self.bv_nside < len(side):
+            self.bv_solver.add(side[self.bv_nside])
+            self.bv_nside += 1
+
+    def _check_bv(self, extra):
+        from .bvsolve import BVModel, NotApplicable, has_divmod
+
+        if not self.bv_ok:
+            return None
+        if not self.divmod_seen and not any(has_divmod(e) for e in extra):
+            return None
+        try:
+            ts = [self.bvtr.tr_bool(e) for e in extra]
+        except NotApplicable:
+            return None
+        t0 = time.time()
+        self._bv_flush_side()
+        self.bv_solver.push()
+        try:
+            for t in ts:
+                self.bv_solver.add(t)
+            r = self.bv_solver.check()
+            m = BVModel(self.bvtr, self.bv_solver.model()) if r == z3.sat else None
+        finally:
+            self.bv_solver.pop()
+        self.stats.add("z3-bv", time.time() - t0)
+        if r == z3.unknown:
+            return None
+        return r, m
 
     def _check(self, *extra):
+        got = self._check_bv(extra)
+        if got is not None:
+            return got
         t0 = time.time()
         self.solver.push()
         try:
@@ -176,11 +232,22 @@ class PathCtx:
         return 0
 
     def choose_feasible(self, conds, label="case"):
-        """Case split over z3 conditions (must be exhaustive by construction of the caller)."""
+        """Case split over z3 conditions (must be exhaustive by construction of the caller).
+        Decisions record the absolute index, so that replaying a prefix does not depend on
+        solver timing."""
+        i = len(self.decisions)
+        if i < len(self.prefix):
+            k = self.prefix[i]
+            self.decisions.append(k)
+            self.add(conds[k])
+            return k
         feas = [k for k, c in enumerate(conds) if self.feasible(c) != z3.unsat]
         if not feas:
             raise PathInfeasible()
-        k = feas[self.choice(len(feas), label)]
+        for k in feas[:0:-1]:
+            self.alternatives.append(self.decisions + [k])
+        k = feas[0]
+        self.decisions.append(k)
         self.add(conds[k])
         return k
 
